@@ -42,13 +42,15 @@ DTYPES = [("float", float, ["012", "102030"]),
 #  of float, np.int64 and np.str_ are not subclasses of int / are subclasses of str)
 SENTINELS = [("nan", "nan"), ("None", "none"), ("-1", "num"), ("reserved-number", "num"),
              ("''", "str"), ("'nan'", "str"), ("'bb'", "str"),
-             ("np.float64(nan)", "nan"), ("np.int64(-1)", "num"), ("np.str_('bb')", "str")]
+             ("np.float64(nan)", "nan"), ("np.int64(-1)", "num"), ("np.str_('bb')", "str"),
+             # (an infinite float is a number sentinel like any other for check_missing_label)
+             ("inf", "num")]
 
 
 def sentinel_value(name, ren):
     return {"nan": np.nan, "None": None, "-1": -1, "reserved-number": RESERVED_NUMBER[ren],
             "''": "", "'nan'": "nan", "'bb'": "bb", "np.float64(nan)": np.float64("nan"),
-            "np.int64(-1)": np.int64(-1), "np.str_('bb')": np.str_("bb")}[name]
+            "np.int64(-1)": np.int64(-1), "np.str_('bb')": np.str_("bb"), "inf": np.inf}[name]
 
 
 def storable(dname, skind):
@@ -216,6 +218,8 @@ def configs_for(case):
             for sname, skind in SENTINELS:
                 if has_missing and not storable(dname, skind):
                     continue     # the array cannot hold that sentinel
+                if sname == "inf" and dname != "float":
+                    continue     # (only a float array can hold / be compared with an infinite sentinel)
                 out.append((dname, dtype, ren, sname, "ndarray"))
                 # a python list carries no dtype when it is empty; object
                 # arrays are given as lists only in their supported form
